@@ -109,7 +109,7 @@ pub fn test(p: &Pair, ev: &mut Ev, devices: &[model::DeviceInfo]) -> Result<(), 
 pub fn run(ctx: &Ctx) -> Result<Ev, String> {
     let devices = model::model_devices();
     let shards = 32usize;
-    let per = (if ctx.thorough { 600_000 } else { 30_000 } / shards) as u32;
+    let per = (if ctx.thorough { 1_500_000 } else { 120_000 } / shards) as u32;
     let seed = ctx.seed;
     let total = par::run_shards("C14", shards, |s| par::prop_shard("C14", seed, s, per, &pair(), |c, ev| test(c, ev, &devices)));
     if total.has_violation() {
